@@ -43,6 +43,7 @@ type Conn struct {
 
 	peer        *Conn // buffered pipe mode: writes are fed to the peer
 	NoLog       bool  // do not keep Written / write events (long streams)
+	ErrWithData bool  // deliver the final bytes and the end error in the same Read call (io.Reader allows it)
 	BlockWrites bool  // the peer is not draining: Write blocks until the write deadline passes or Close
 	Events      []Event
 	Written     []byte
@@ -130,6 +131,11 @@ func (c *Conn) Read(p []byte) (int, error) {
 			copy(p, c.in[:n])
 			c.in = c.in[n:]
 			c.BytesRead += n
+			if c.ErrWithData && len(c.in) == 0 && c.endErr != nil {
+				err := c.endErr
+				c.mu.Unlock()
+				return n, err
+			}
 			c.mu.Unlock()
 			return n, nil
 		}
